@@ -777,6 +777,51 @@ Section Accept.
     end.
 End Accept.
 
+(* ------------------------------------------------------------------ the PRIMITIVE load
+   WorkflowGraph.graphFromFlowIR / ExperimentPackage.packageFromLocation with their default primitive=True: nothing is
+   expanded (FlowIRExperimentConfiguration._initialize skips replicate()), no graph is searched for a cycle, and the
+   ONLY gate for a dangling component reference is FlowIR.validate_references (on the replicated path
+   propagate_replicate refuses it first).  The structural part of that load: the schema of every component, unique
+   (stage, name) identifiers, every reference names an identifier - stage AND name -, stage indices without a gap.
+   (The variables of a primitive load are resolved without the in-place resolution of the globals of
+   FlowIRConcrete.instance; they are explored against the property predicate only.) *)
+Definition accept_prim (cs : schema) (w : wf) : bool :=
+  forallb (schema_ok cs) (w_comps w) && uniq cid_eqb (ids w) && refs_exist w && stages_ok w.
+
+Definition reasons_prim (cs : schema) (w : wf) : list nat :=
+  (if forallb (schema_ok cs) (w_comps w) then [] else [1]) ++
+  (if uniq cid_eqb (ids w) then [] else [2]) ++
+  (if refs_exist w then [] else [3]) ++
+  (if stages_ok w then [] else [6]).
+
+(* ------------------------------------------------------------------ the identifiers of the EXPANDED workflow
+   FlowIR.apply_replicate names replica k of a component `name` textually: name ++ decimal(k) (compile_component_replica),
+   in the stage of the component; a component with no replica count (or the count 0), and an aggregating one, keeps
+   its identifier.  [cnt] is the assignment of replica counts (what propagate_replicate computes; None for a
+   component that is not expanded).  The replicated load hands the expanded list to FlowIRConcrete, whose constructor
+   refuses an identifier that occurs twice ("exists multiple times"). *)
+Definition nseqN (n : N) : list N := map N.of_nat (seq 0 (N.to_nat n)).
+
+Definition replica_ids (cnt : cid -> option N) (c : comp) : list cid :=
+  match cnt (c_id c) with
+  | Some n => if N.eqb n 0 then [c_id c] else map (fun k => (c_stage c, (c_name c ++ dec k)%string)) (nseqN n)
+  | None => [c_id c]
+  end.
+
+Definition expand_ids (cnt : cid -> option N) (w : wf) : list cid := flat_map (replica_ids cnt) (w_comps w).
+
+Definition accept_repl (cs : schema) (cnt : cid -> option N) (w : wf) : bool :=
+  accept cs w && uniq cid_eqb (expand_ids cnt w).
+
+Definition reasons_repl (cs : schema) (cnt : cid -> option N) (w : wf) : list nat :=
+  reasons cs w ++ (if uniq cid_eqb (expand_ids cnt w) then [] else [2]).
+
+Fixpoint cnt_of (l : list (cid * N)) (c : cid) : option N :=
+  match l with
+  | [] => None
+  | (k, n) :: r => if cid_eqb c k then Some n else cnt_of r c
+  end.
+
 (* ------------------------------------------------------------------ correspondence checkers *)
 Definition err_code (e : err) : nat * string :=
   match e with EKeyUnknown l => (1, l) | EValueInvalid l => (2, l) | EKeyMissing l => (3, l) end.
@@ -856,3 +901,22 @@ Definition check_convert_case (c : pv * option pv) : bool :=
   | Some a, Some b => pv_eqb (erase_flt a) (erase_flt b)
   | _, _ => false
   end.
+
+(* (workflow, replica counts of the components that are expanded, accepted by the real REPLICATED load, reason codes) *)
+Definition check_repl_case (cs : schema) (c : wf * list (cid * N) * bool * list nat) : bool :=
+  let '(w, cnts, acc, rs) := c in
+  Bool.eqb (accept_repl cs (cnt_of cnts) w) acc &&
+  forallb (fun r => if Nat.eqb r 0 then negb (accept_repl cs (cnt_of cnts) w)
+                    else existsb (Nat.eqb r) (reasons_repl cs (cnt_of cnts) w)) rs.
+
+(* (workflow, accepted by the real PRIMITIVE load, reason codes of the real rejection): the load is accepted only if
+   the structural part holds; when the structural part fails it is rejected and every structural reason the loader
+   gives (1 schema, 2 duplicate, 3 unknown reference, 6 stage gap) is one of the model; when the structural part holds
+   a rejection is about the variables (5) or the conversion/unclassified (0) *)
+Definition check_prim_case (cs : schema) (c : wf * bool * list nat) : bool :=
+  let '(w, acc, rs) := c in
+  let a := accept_prim cs w in
+  (if a then true else negb acc) &&
+  forallb (fun r => if Nat.eqb r 5 then true
+                    else if Nat.eqb r 0 then (negb a || negb (accept cs w))
+                    else existsb (Nat.eqb r) (reasons_prim cs w)) rs.
